@@ -3,6 +3,7 @@ package main
 // `walvc check --property Cnn --tier quick|thorough`: the registered check.
 
 import (
+	"runtime"
 	"encoding/json"
 	"flag"
 	"fmt"
@@ -242,6 +243,17 @@ func (p *Prog) CheckProperty(prop, tier string, seed int) *CheckResult {
 	if tier == "thorough" {
 		timeout = 60000
 		all = true
+	}
+	// other jobs on the machine slow the solvers down: scale the time limits
+	// with the load so that a proof does not turn into a timeout
+	if la := loadAverage(); la > float64(runtime.NumCPU())/2 {
+		f := la / (float64(runtime.NumCPU()) / 2)
+		if f > 4 {
+			f = 4
+		}
+		timeout = int(float64(timeout) * f)
+		loadFactor = f
+		res.Extra["timeout_scaled_for_load"] = fmt.Sprintf("load average %.1f on %d cpus: time limits x%.1f", la, runtime.NumCPU(), f)
 	}
 	var obls []*Obl
 	unitOf := map[*Obl]*Contract{}
@@ -637,4 +649,16 @@ func (p *Prog) replay(o *Obl, prop string) (string, bool) {
 	fmt.Fprintf(&b, "\n--- SMT-LIB query (unsat = obligation holds) ---\n%s\n", o.Query)
 	os.WriteFile(path, []byte(b.String()), 0644)
 	return path, false
+}
+
+
+// loadAverage is the 1-minute load average (0 if unavailable).
+func loadAverage() float64 {
+	b, err := os.ReadFile("/proc/loadavg")
+	if err != nil {
+		return 0
+	}
+	var la float64
+	fmt.Sscanf(string(b), "%f", &la)
+	return la
 }
